@@ -289,6 +289,12 @@ def gen_spec(rng, size=None):
         "wl_skip_head": rng.choice([0, 0, 0, 1, 2]),
         "wl_skip_tail": rng.choice([0, 0, 0, 1, 2]),
     }
+    # a few missing-value sentinels or small negative glitches in the rain record (load accepts them;
+    # they are simply steps without rain)
+    if rng.random() < 0.08:
+        flat = [(si, i) for si, seg in enumerate(segments) for i in range(len(seg["rain"])) if seg["rain"][i] == 0.0]
+        for si, i in rng.sample(flat, min(len(flat), rng.randint(1, 4))):
+            segments[si]["rain"][i] = rng.choice([-9999.0, -0.1, -1.0])
     # rows need not be in time order (two logger downloads concatenated newest first, back-filled
     # rows appended at the end, ...): load accepts any row order
     if rng.random() < 0.25:
